@@ -165,11 +165,15 @@ impl Shared {
             return Ok(());
         }
 
-        let limit_block_hash = snapshot
-            .get_epoch_index(current_epoch + 1 - THRESHOLD_EPOCH)
-            .and_then(|index| snapshot.get_epoch_ext(&index))
-            .expect("get_epoch_ext")
-            .last_block_hash_in_previous_epoch();
+        // Walk back along the main chain, the epoch index by number may have been
+        // overwritten by a side chain block which starts the same epoch.
+        let mut limit_epoch = snapshot.epoch_ext().to_owned();
+        for _ in 1..THRESHOLD_EPOCH {
+            limit_epoch = snapshot
+                .get_block_epoch(&limit_epoch.last_block_hash_in_previous_epoch())
+                .expect("get_block_epoch");
+        }
+        let limit_block_hash = limit_epoch.last_block_hash_in_previous_epoch();
 
         let frozen_number = freezer.number();
 
